@@ -16,7 +16,9 @@ done
 if [ -z "$DIR" ]; then echo "RESULT $P/$M cannot-locate-package"; exit 3; fi
 cp $DEMO $WT/$DIR/zz_demo_test.go
 TESTS=$(grep -oE '^func (Test[A-Za-z0-9_]+)' $DEMO | awk '{print $2}' | paste -sd'|')
-run_demo() { (cd $WT/$DIR && timeout 600 go test -vet=off -count=1 -run "^($TESTS)\$" . >/tmp/mut-demo.log 2>&1); }
+TAGS=""; grep -q "go:build verif" $DEMO && TAGS="-tags verif"
+RACE=""; grep -qi '"demo".*-race' $OUT/meta.json && RACE="-race"
+run_demo() { (cd $WT/$DIR && timeout 900 go test $TAGS $RACE -vet=off -count=1 -run "^($TESTS)\$" . >/tmp/mut-demo.log 2>&1); }
 run_demo; PRISTINE=$?
 git apply $OUT/patch.diff || { echo "RESULT $P/$M patch-does-not-apply"; rm -f $WT/$DIR/zz_demo_test.go; exit 3; }
 run_demo; MUT=$?
